@@ -85,7 +85,8 @@ type c14Scn struct {
 	BufOrder int    `json:"buf_order"` // 0: BUFFER n, PTT TRUE, BUFFER 0, PTT FALSE back to back; 1: BUFFER n, pause, BUFFER 0; 2: BUFFER n, n/2, 0 back to back
 	CloseAns int    `json:"close_ans"` // 0 DISCONNECTED, 1 NEWSTATE DISC, 2 silence
 	Mal      int    `json:"mal"`
-	Deep     bool   `json:"deep,omitempty"` // small scenario explored one deviation deeper, also in the quick tier
+	Early    bool   `json:"early,omitempty"` // serial mode: the first ARQ frame follows CONNECTED at once (the remote's banner), before the host's next command is answered
+	Deep     bool   `json:"deep,omitempty"`  // small scenario explored one deviation deeper, also in the quick tier
 	Choices  []int  `json:"choices,omitempty"`
 }
 
@@ -95,7 +96,7 @@ func (s c14Scn) describe() string {
 		mode = "serial"
 	}
 	return fmt.Sprintf("%s %s offline=%v dial=%s frames=%v readbuf=%d late=%v seg=%s writes=%v crcfault=%d buforder=%d closeans=%d mal=%d",
-		s.Kind, mode, s.Offline, s.Dial, s.Frames, s.ReadBuf, s.LateRead, c13SegName(s.Seg), s.Writes, s.CRCFault, s.BufOrder, s.CloseAns, s.Mal)
+		s.Kind, mode, s.Offline, s.Dial, s.Frames, s.ReadBuf, s.LateRead, c13SegName(s.Seg), s.Writes, s.CRCFault, s.BufOrder, s.CloseAns, s.Mal) + map[bool]string{true: " early-frame", false: ""}[s.Early]
 }
 
 type c14Sim struct {
@@ -110,6 +111,7 @@ type c14Sim struct {
 	mycall     string
 	disconnect bool
 	listen     bool
+	earlySent  bool
 }
 
 func (t *c14Sim) complain(format string, a ...any) {
@@ -117,6 +119,14 @@ func (t *c14Sim) complain(format string, a ...any) {
 }
 
 func (t *c14Sim) say(text string) { t.ctrl.Write(ardopCtrl(t.sc.Serial, text)) }
+
+// early sends the first ARQ frame right behind CONNECTED (same serial stream, so the order is fixed).
+func (t *c14Sim) early() {
+	if t.sc.Early && t.sc.Serial && len(t.sc.Frames) > 0 && !t.earlySent {
+		t.earlySent = true
+		t.sendARQ(c13Payload(0, t.sc.Frames[0]))
+	}
+}
 
 func (t *c14Sim) sendARQ(payload []byte) {
 	c := t.data
@@ -175,6 +185,7 @@ func (t *c14Sim) command(line string) {
 			t.say("NEWSTATE ISS")
 			t.say("CONNECTED N0PEER 500")
 			t.connected = true
+			t.early()
 		}
 	case "DISCONNECT":
 		t.disconnect = true
@@ -458,6 +469,7 @@ func c14Harness(sc c14Scn, o *c14Obs) func() {
 					sim.say("NEWSTATE IRS")
 					sim.say("CONNECTED N0PEER 500")
 					sim.connected = true
+					sim.early()
 				})
 				conn, err = ln.Accept()
 				o.acceptErr = err
@@ -481,6 +493,9 @@ func c14Harness(sc c14Scn, o *c14Obs) func() {
 				arqDone := false
 				vs.GoNamed("tnc-arq", false, func() {
 					for k, n := range sc.Frames {
+						if k == 0 && sim.earlySent {
+							continue
+						}
 						vs.WaitQuiescent()
 						sim.sendARQ(c13Payload(k, n))
 					}
@@ -701,6 +716,11 @@ func c14Scenarios(thorough bool) []c14Scn {
 			}
 		}
 		out = append(out, c14Scn{Kind: "listen", Serial: serial, Frames: []int{3, 4}})
+		if serial {
+			for _, rb := range []int{0, 2} {
+				out = append(out, c14Scn{Kind: "inbound", Serial: true, Frames: []int{5, 4}, ReadBuf: rb, Early: true}, c14Scn{Kind: "listen", Serial: true, Frames: []int{5, 4}, ReadBuf: rb, Early: true})
+			}
+		}
 		for _, fs := range [][]int{{6}, {5, 5, 5}, {20, 1, 300, 2, 9, 9, 9, 9}} {
 			for _, rb := range []int{0, 7} {
 				out = append(out, c14Scn{Kind: "inbound", Serial: serial, Frames: fs, ReadBuf: rb, LateRead: true})
